@@ -192,6 +192,18 @@ fn list_laws(ctx: &Ctx, sink: &mut Sink, i: u64) {
     for idx in ["0.5", "1.9", "-0.5", "0/0", "1e30", "-1e30", "inf", "-inf", "2^53", "-(2^63)"] {
         l.no_crash("indexing-odd-index", &format!("A[{}]", idx), &allowed);
     }
+    // a fractional index INSIDE the range -len .. len-1 is not "out of range": whatever element it selects (or if it is refused
+    // with an error), it does not yield the out-of-range answer null - unless null is an element of the list
+    if len > 0 && !a.contains(&RVal::Null) {
+        let inside: Vec<RVal> = a.clone();
+        for x in [0.5f64, 0.25, -0.5, -0.25, -0.999, 1.5, -1.5, len as f64 - 1.5, -(len as f64) + 0.5] {
+            if x > len as f64 - 1.0 || x < -(len as f64) {
+                continue;
+            }
+            let src = if x < 0.0 { format!("A[-{}]", -x) } else { format!("A[{}]", x) };
+            l.no_crash("fractional-index-in-range-is-not-null", &src, &inside);
+        }
+    }
     // slice (valid ranges are the definition; others must not crash)
     for _ in 0..4 {
         let x = r.below(len + 1);
@@ -388,6 +400,16 @@ fn string_laws(ctx: &Ctx, sink: &mut Sink, i: u64) {
         };
         let src = if k < 0 { format!("S[-{}]", -k) } else { format!("S[{}]", k) };
         l.expect("string-indexing", &src, &exp);
+    }
+    if nch > 0 {
+        let inside: Vec<RVal> = chars.iter().map(|c| s(c)).collect();
+        for x in [0.5f64, -0.5, -0.25, -0.999, 1.5, -1.5] {
+            if x > nch as f64 - 1.0 || x < -(nch as f64) {
+                continue;
+            }
+            let src = if x < 0.0 { format!("S[-{}]", -x) } else { format!("S[{}]", x) };
+            l.no_crash("fractional-index-in-range-is-not-null", &src, &inside);
+        }
     }
     // string functions describe the same sequence of characters
     let cls = if is_ascii(&sv) { "ascii" } else { "non-ascii" };
